@@ -619,7 +619,7 @@ def gbs_source(draw, dev, n):
     h = n // 2
     meta = {"shape": "gbs"}
     allow_dagger = draw(st.booleans())
-    phi_mode = draw(st.sampled_from(["zero"] * 14 + ["same", "differ"]))
+    phi_mode = draw(st.sampled_from(["zero"] * 13 + ["same", "differ", "differ"]))
     phi_same = draw(st.sampled_from([0.3, PI, -1.0]))
     s2 = []  # (pair, op)
     sgate_pairs = []
@@ -627,7 +627,7 @@ def gbs_source(draw, dev, n):
         allowed = _sq_items(dev, i)
         t = draw(_allowed_nonzero(allowed))
         kind = draw(st.sampled_from(["single"] * 5 + ["zero", "zero", "missing", "split", "split"] +
-                                    (["split_dag", "split_dag", "single_dag"] if allow_dagger else []) + ["bad_value", "as_sgates"]))
+                                    (["split_dag", "split_dag", "single_dag"] if allow_dagger else []) + ["bad_value", "as_sgates", "split_phase"]))
         parts = []
         if kind == "single":
             parts = [(t, False)]
@@ -651,10 +651,24 @@ def gbs_source(draw, dev, n):
             else:  # only the sum of the written numbers is allowed: a compiler that honours .H will (rightly) refuse
                 vals.append(t - sum(vals))
             parts = list(zip(vals, fl))
+        elif kind == "split_phase":
+            # squeezers of one pair whose phases differ, one of them with zero amplitude (or amplitudes cancelling before the last):
+            # the net operation is S2gate(t, phase of the non-zero one); a compiler may refuse the merge but must not mix up the phases
+            pa, pb = draw(st.sampled_from([(0.3, 0.0), (0.0, 0.3), (1.0, 0.3), (0.0, PI)]))
+            if draw(st.booleans()):
+                parts = [(0.0, False, pa), (t, False, pb)]
+            else:
+                parts = [(t, False, pa), (-t, False, pa), (t, False, pb)]
+            if draw(st.booleans()):
+                parts = parts[::-1]
+            meta["split_phase"] = True
         elif kind == "as_sgates":
             sgate_pairs.append((i, t))
-        for v, f in parts:
+        for part in parts:
+            v, f = part[0], part[1]
             phi = 0.0 if phi_mode == "zero" else (phi_same if phi_mode == "same" else draw(st.sampled_from([0.0, 0.3, 1.0])))
+            if len(part) > 2:
+                phi = part[2]
             s2.append((i, ["S2gate", [float(v), phi], [i, i + h], {"H": True} if f else {}]))
     s2 = list(draw(st.permutations(s2))) if s2 else []
     pair_mode = draw(st.sampled_from(["ok"] * 24 + ["reversed", "wrong"]))
@@ -1064,8 +1078,11 @@ def check_x(ctx, case):
         if kind == "dagger":
             return ctx.fail("conformance.daggered_gate_passes_validation", "%s: %s" % (compiler, detail))
         if kind == "constant":
-            return ctx.fail("conformance.hardcoded_layout_argument_not_checked.x_compilers", "%s: %s" % (compiler, detail))
-        return ctx.fail("conformance.%s.%s" % (kind, compiler), detail)
+            # open finding X1 (a hard-coded layout argument is not compared): the returned circuit may still be a different experiment
+            # than the source, which is a separate violation - fall through to (3) after reporting X1
+            ctx.fail("conformance.hardcoded_layout_argument_not_checked.x_compilers", "%s: %s" % (compiler, detail))
+        else:
+            return ctx.fail("conformance.%s.%s" % (kind, compiler), detail)
     # ---- (3) same experiment
     ref_src_ops = case.get("ref_ops") or gates
     try:
